@@ -312,7 +312,17 @@ AttributeListImpl::getValue(const XMLCh* const name) const
 void
 AttributeListImpl::clear()
 {
-    m_cacheVector.insert(m_cacheVector.end(), m_AttributeVector.begin(), m_AttributeVector.end());
+    // This is also called while cleaning up after an error, so it
+    // must not fail.  If the cache cannot grow, delete the entries
+    // instead of keeping them.
+    try
+    {
+        m_cacheVector.insert(m_cacheVector.end(), m_AttributeVector.begin(), m_AttributeVector.end());
+    }
+    catch(...)
+    {
+        deleteEntries(m_AttributeVector);
+    }
 
     // Clear everything out.
     m_AttributeVector.clear();
